@@ -29,14 +29,16 @@ func (d *dir) ReadDir(n int) ([]hackpadfs.DirEntry, error) {
 	if err != nil {
 		return nil, err
 	}
-	if n > 0 && d.offset == len(entries) {
+	if d.offset > len(entries) {
+		d.offset = len(entries)
+	}
+	entries = entries[d.offset:]
+	if n > 0 && len(entries) == 0 {
 		return nil, io.EOF
 	}
-	if n <= 0 || d.offset+n > len(entries) {
-		d.offset = n
-	} else {
-		entries = entries[d.offset : d.offset+n]
-		d.offset += n
+	if n > 0 && n < len(entries) {
+		entries = entries[:n]
 	}
+	d.offset += len(entries)
 	return entries, nil
 }
